@@ -314,8 +314,14 @@ def check_period(case):
 @st.composite
 def j2_case(draw):
     c = draw(kep_case(hyp_ok=False))
-    special = draw(st.sampled_from(["none", "none", "none", "polar", "critical", "critical-retro"]))
-    if special == "polar":
+    special = draw(st.sampled_from(["none", "none", "none", "polar", "critical", "critical-retro", "near-polar", "near-critical"]))
+    if special == "near-polar":
+        # a thousandth of a degree to a fifth of a degree off the pole: the node drift is small, not zero
+        c["el"]["i"] = math.pi / 2 + draw(st.sampled_from([-1.0, 1.0])) * 10 ** draw(go.uniform(-6.5, -2.3))
+    elif special == "near-critical":
+        ic = math.asin(math.sqrt(0.8))
+        c["el"]["i"] = draw(st.sampled_from([ic, math.pi - ic])) + draw(st.sampled_from([-1.0, 1.0])) * 10 ** draw(go.uniform(-7.0, -3.0))
+    elif special == "polar":
         c["el"]["i"] = math.pi / 2
     elif special == "critical":
         c["el"]["i"] = math.asin(math.sqrt(0.8))
@@ -366,7 +372,7 @@ def check_j2(case):
                                               f"i={i:.6f} e={e:.6g} a={a:.1f}")
         if case["special"] == "polar" and abs(tb.angdiff(a1["raan"], a0["raan"])) > tol:
             raise Violation("j2-polar", "node drifts on a polar orbit")
-        if case["special"].startswith("critical") and abs(tb.angdiff(a1["argp"], a0["argp"])) * min(1.0, e) > tol + 1e-9 * abs(n * dt) * 1e-3:
+        if case["special"] in ("critical", "critical-retro") and abs(tb.angdiff(a1["argp"], a0["argp"])) * min(1.0, e) > tol + 1e-9 * abs(n * dt) * 1e-3:
             raise Violation("j2-critical", "perigee drifts at the critical inclination")
     if not np.array_equal(np.asarray(orb.base, float), snapshot):
         raise Violation("initial-mutated", "J2.propagate() changed the initial orbit object")
@@ -497,7 +503,7 @@ FACETS = [
     Facet("periodicity", lambda s, t: kep_case(hyp_ok=False), check_period, setup=setup,
           rule="bound orbit, dt = k periods, k in +-1..5", quick=(6, 300), thorough=(16, 3000)),
     Facet("j2", lambda s, t: j2_case(), check_j2, setup=setup,
-          rule="|dt| > 1 s; three dates per case so that linearity in time is tested; polar and critical inclinations forced in 1/2 of the cases",
+          rule="|dt| > 1 s; three dates per case so that linearity in time is tested; polar and critical inclinations, and inclinations 1e-7 .. 5e-3 rad off them, forced in 5/8 of the cases",
           quick=(10, 300), thorough=(16, 4000)),
     Facet("reuse", lambda s, t: reuse_case(), check_reuse, setup=setup,
           rule="a propagation after the same object had been propagated and then changed in place (form / delta-v)",
